@@ -197,9 +197,9 @@ func (h *FSEventHandler) UpsertLastModTime(fileName string) (modTime time.Time, 
 	}
 	h.fileNameToLastModTimeMutex.Lock()
 	defer h.fileNameToLastModTimeMutex.Unlock()
-	previousModTime := h.fileNameToLastModTime[fileName]
+	previousModTime, seen := h.fileNameToLastModTime[fileName]
 	currentModTime := fileInfo.ModTime()
-	if !currentModTime.After(previousModTime) {
+	if seen && !currentModTime.After(previousModTime) {
 		return currentModTime, false
 	}
 	h.fileNameToLastModTime[fileName] = currentModTime
